@@ -36,6 +36,10 @@ TIMEOUT = {"quick": 600, "thorough": 3000}
 
 BAD = -1
 MODES = ("id", "coerce", "reject", "owner")
+#: "ownerb": the owner mode on a List trait with length bounds 1..4 (an
+#: operation whose result would leave the bounds is refused with TraitError
+#: - property C04 -, every other one behaves as on a list)
+BOUNDS_B = (1, 4)
 
 
 def validator(mode):
@@ -59,7 +63,7 @@ def validator(mode):
 
 
 def model_validate(mode, x):
-    if mode in ("coerce", "owner") and isinstance(x, str):
+    if mode in ("coerce", "owner", "ownerb") and isinstance(x, str):
         if x.lstrip("-").isdigit():
             return int(x)
         raise TraitError("bad")
@@ -189,7 +193,19 @@ def model(mode, before, op):
     try:
         ret = do(ref, op, validated if kind else None)
     except Exception as e:
-        return {type(e)}, None
+        acc = {type(e)}
+        if mode == "ownerb":
+            # doubly refused: the list refuses the arguments, and the length
+            # check (made first) would refuse any removal / insertion here
+            shrink = op[0] in ("pop", "remove", "delitem", "clear")
+            grow = op[0] in ("insert", "append", "extend", "iadd", "imul",
+                             "setitem")
+            if (shrink and len(before) <= BOUNDS_B[0]) or \
+                    (grow and len(before) >= BOUNDS_B[1]):
+                acc.add(TraitError)
+        return acc, None
+    if mode == "ownerb" and not BOUNDS_B[0] <= len(ref) <= BOUNDS_B[1]:
+        return {TraitError}, None
     return set(), (ret, ref)
 
 
@@ -341,7 +357,7 @@ def new_items(mode, k, base=100):
     """Replacement payloads of length k (simplest first)."""
     good = [base + i for i in range(k)]
     out = [good]
-    if mode in ("coerce", "owner") and k:
+    if mode in ("coerce", "owner", "ownerb") and k:
         out.append([str(x) for x in good])
         if k >= 1:
             out.append(good[:-1] + ["x"])
@@ -353,7 +369,7 @@ def new_items(mode, k, base=100):
 
 def one_items(mode):
     out = [100]
-    if mode in ("coerce", "owner"):
+    if mode in ("coerce", "owner", "ownerb"):
         out += ["100", "x"]
     if mode == "reject":
         out.append(BAD)
@@ -462,6 +478,8 @@ def shards(tier):
     out.append({"kind": "patterns"})
     for n in range(0, 4):
         out.append({"kind": "all", "mode": "reject", "n": n, "bare": True})
+    for n in range(BOUNDS_B[0], BOUNDS_B[1] + 1):
+        out.append({"kind": "all", "mode": "ownerb", "n": n})
     d2 = 1 if tier == "quick" else 3
     for mode in MODES:
         for n in range(d2 + 1):
@@ -472,6 +490,14 @@ def shards(tier):
                 out.append({"kind": "depth2", "mode": mode, "n": n,
                             "chunk": c, "of": of})
     return out
+
+
+class OwnerB(HasTraits):
+    x = List(CInt, [0], minlen=BOUNDS_B[0], maxlen=BOUNDS_B[1])
+    log = None
+
+    def _x_items_changed(self, ev):
+        self.log.append((ev.index, list(ev.removed), list(ev.added)))
 
 
 class Owner(HasTraits):
@@ -493,11 +519,11 @@ def fresh(mode, contents, bare=False):
     if bare:
         # the rejecting validator and nobody listening at all
         return TraitList(contents, item_validator=validator(mode)), rec
-    if mode == "owner":
+    if mode in ("owner", "ownerb"):
         items = rec.extra["items"] = []
         obs = rec.extra["observer"] = []
 
-        owner = Owner(x=list(contents))
+        owner = (Owner if mode == "owner" else OwnerB)(x=list(contents))
         owner.log = items
         owner.observe(lambda ev: obs.append(
             (ev.index, list(ev.removed), list(ev.added))), "x.items")
